@@ -20,7 +20,7 @@ pub fn def() -> MonitorDef {
 
 fn plan(tier: Tier, _seed: u64) -> Plan {
 	Plan {
-		cases: KINDS as u64 * tier.pick(4, 60),
+		cases: KINDS as u64 * tier.pick(8, 100),
 		shards: 14,
 		case_timeout_s: 900,
 		level: "exploration",
@@ -68,7 +68,7 @@ fn bstr(b: &TileBBox) -> String {
 }
 
 /// boxes to try against a source
-fn boxes_for(b: &Built, rng: &mut Rng, exhaustive_small: bool, sampled: usize) -> Vec<(TileBBox, &'static str)> {
+fn boxes_for(b: &Built, rng: &mut Rng, exhaustive_small: bool, sampled: usize, max_box: u64) -> Vec<(TileBBox, &'static str)> {
 	let mut out: Vec<(TileBBox, &'static str)> = vec![];
 	let pyramid = b.reader.get_parameters().bbox_pyramid.clone();
 	let mut levels: BTreeSet<u8> = b.known.iter().map(|k| k.0).collect();
@@ -102,7 +102,9 @@ fn boxes_for(b: &Built, rng: &mut Rng, exhaustive_small: bool, sampled: usize) -
 	let mut lv: Vec<u8> = levels.iter().cloned().collect();
 	if let Some(absent) = (0..32u8).find(|z| !levels.contains(z)) {
 		lv.push(absent);
-		out.push((TileBBox::new_full(absent.min(6)).unwrap(), "level-without-tiles"));
+		if max_box >= 4096 {
+			out.push((TileBBox::new_full(absent.min(6)).unwrap(), "level-without-tiles"));
+		}
 		let m = ((1u64 << absent) - 1) as u32;
 		out.push((TileBBox::new(absent, m / 2, m / 2, (m / 2 + 3).min(m), (m / 2 + 2).min(m)).unwrap(), "level-without-tiles"));
 	}
@@ -188,7 +190,7 @@ fn boxes_for(b: &Built, rng: &mut Rng, exhaustive_small: bool, sampled: usize) -
 				(TileBBox::new(z, cl(x0), cl(y0), cl(x0 + rng.range_i(0, 20)), cl(y0 + rng.range_i(0, 20))).unwrap(), "random")
 			}
 		};
-		if bbx.count_tiles() <= 70_000 {
+		if bbx.count_tiles() <= max_box {
 			out.push((bbx, class));
 		}
 	}
@@ -246,7 +248,7 @@ fn run_case(cx: &CaseCtx, rep: &mut Report) {
 	};
 	let heavy = kname.contains("from_debug");
 	let mt = cx.case / KINDS as u64 % 2 == 1;
-	let boxes = boxes_for(&b, &mut rng, !heavy, if heavy { 10 } else { cx.tier.pick(60, 120) });
+	let boxes = boxes_for(&b, &mut rng, !heavy, if heavy { 30 } else { cx.tier.pick(60, 120) }, if heavy { 9 } else { 70_000 });
 	let src_fp = fnv(b.describe.to_string().as_bytes());
 	let mut lookup_cache: BTreeMap<Key, Result<Option<Vec<u8>>, String>> = BTreeMap::new();
 	let mut bad = 0;
